@@ -12,6 +12,11 @@ package main
 
 import (
 	"bytes"
+	"compress/bzip2"
+	"compress/flate"
+	"compress/gzip"
+	"compress/lzw"
+	"compress/zlib"
 	"crypto/sha256"
 	"encoding/hex"
 	"fmt"
@@ -20,6 +25,7 @@ import (
 	"hash/crc64"
 	"image/gif"
 	"image/png"
+	"io"
 	"os"
 	"path/filepath"
 	"sort"
@@ -295,6 +301,35 @@ func decJob(e encoded, want []byte, class string, chunking string, alt int, lean
 	}
 }
 
+// refDecodes: Go's own decoder reproduces the payload from e.data (codecs without a Go decoder: true).
+func refDecodes(e encoded, want []byte) bool {
+	var rd io.Reader
+	switch e.codec {
+	case "deflate":
+		rd = flate.NewReader(bytes.NewReader(e.data))
+	case "zlib":
+		z, err := zlib.NewReaderDict(bytes.NewReader(e.data), e.dict)
+		if err != nil {
+			return false
+		}
+		rd = z
+	case "gzip":
+		z, err := gzip.NewReader(bytes.NewReader(e.data)) // multistream by default
+		if err != nil {
+			return false
+		}
+		rd = z
+	case "lzw":
+		rd = lzw.NewReader(bytes.NewReader(e.data), lzw.LSB, e.lw)
+	case "bzip2":
+		rd = bzip2.NewReader(bytes.NewReader(e.data))
+	default:
+		return true
+	}
+	got, err := io.ReadAll(rd)
+	return err == nil && bytes.Equal(got, want)
+}
+
 // bigWork: dictionary of `xz -6` (8 MiB) + 273, rounded up
 const bigWork = "8389120"
 
@@ -520,6 +555,12 @@ func main() {
 	}
 	alt := 0
 	addDec := func(e encoded, p payload, chunk string) {
+		// the reference encoder must be valid for the reference decoder too (Go's flate writer with a preset
+		// dictionary has been seen to copy the dictionary into a stored block: not a valid encoding of p)
+		if !refDecodes(e, p.data) {
+			skipped["reference-encoder-output-rejected-by-reference-decoder:"+e.codec]++
+			return
+		}
 		lean := (e.codec == "deflate" || e.codec == "zlib" || e.codec == "gzip" || e.codec == "lzw") && leanDec > 0
 		if lean {
 			leanDec -= len(e.data) + len(p.data)/4 + 100
